@@ -15,7 +15,7 @@ CFG = dict(
           "echoed) are evaluated on every history recorded from the REAL client connection + server; the component models are tied "
           "lock-step to the code by ./check CL and ./check SV (not by this check).",
     props="Props/C01.v",
-    theorems=["C01_projection_client", "C01_projection_server", "C01_wire_c2s", "C01_wire_s2c", "C01_request_exact", "C01_server_reply_origin", "C01_pairing", "C01_exactly_once", "C01_no_fabrication"],
+    theorems=["C01_projection_client", "C01_projection_server", "C01_wire_c2s", "C01_wire_s2c", "C01_request_exact", "C01_server_reply_origin", "C01_pairing", "C01_exactly_once", "C01_no_fabrication", "C01_never_two"],
     imports=["Check.SysC", "Check.C01c"],
     case_type="c01case",
     find_bad_from="find_bad_from",
